@@ -49,6 +49,10 @@ def raw_index_sinks(ctx, f):
 
 def run(ctx, rep):
     ix, T = ctx.ix, ctx.typer
+    from .common import check_shadowed_register_names
+    check_shadowed_register_names(ctx, rep, "C06.10")
+    from .common import check_no_frozen_size
+    check_no_frozen_size(ctx, rep, "C06.9")
     from .common import check_scope_discipline
     check_scope_discipline(ctx, rep, "C06.6", "C06.7", "C06.8")
     from .common import check_symbolic_qubits_left_alone
